@@ -38,7 +38,7 @@ pub(crate) fn reg_last() -> Option<(Header, AnnounceMessage, Duration)> { unsafe
 
 use crate::verif_root::gen::*;
 
-fn ti_one_second() -> TimeInterval {
+pub(crate) fn ti_one_second() -> TimeInterval {
     TimeInterval(fixed::types::I48F16::from_num(1_000_000_000i64))
 }
 
@@ -184,46 +184,221 @@ fn c03_foreign_master_list_step_age() {
 }
 
 // ================================================================================================
-// C06 at list level: one operation from an arbitrary list state (inductive step). The payload of the stored
+// C06 at list / record level: one operation from an arbitrary state (inductive step). The payload of the stored
 // Announces is concrete (plain_announce); what the list logic depends on - which master, sequence ids, ages,
 // stepsRemoved, own / foreign clock identity, record counts - is symbolic. Capacities are scaled 8 -> 2.
 //
-// Invariant assumed of the pre-state and asserted of the post-state (inv): at most 2 records with distinct
+// Invariant assumed of the pre-state and asserted of the post-state: at most 2 records with distinct
 // identities, none with the own clock identity, every record holds 1..=2 messages, every stored age is in
-// [0, window) where window = 4 announce intervals (ages only change in step_age, which purges).
+// [0, window) where window = 4 announce intervals (ages only change in step_age, which purges), and within a
+// record a later message has a newer sequence id than the earlier one (difference mod 2^16 below 32767 - what
+// admission requires; equal ids, i.e. a duplicated Announce, are admitted by the code and count as two).
+//
+// CBMC carries `ArrayVec::retain` / `remove` on the *messages of a record* only when the record stands alone
+// (a record nested in the list: > 21 GB for one two-message record). So the family is split assume-guarantee:
+//   record level  - the real ForeignMaster::{step_age, register_announce_message} on a stand-alone record;
+//   list level    - the real ForeignMasterList::{step_age, register_announce_message, take_qualified_...}
+//                   with the two record-level functions replaced by stubs that record their arguments and
+//                   return / do exactly what the record-level harnesses prove of the real ones.
 // ================================================================================================
 const WINDOW_BITS: i128 = 4_000_000_000i128 << 32;
 
-fn dur(bits: i128) -> Duration { Duration::from_fixed_nanos(fixed::types::I96F32::from_bits(bits)) }
+pub(crate) fn dur(bits: i128) -> Duration { Duration::from_fixed_nanos(fixed::types::I96F32::from_bits(bits)) }
 
-struct ListModel {
-    n: usize,
-    c: [usize; 2],
-    age: [[i128; 2]; 2],
-    seq: [[u16; 2]; 2],
+pub(crate) fn own_identity() -> PortIdentity { PortIdentity { clock_identity: ClockIdentity([1, 1, 1, 1, 1, 1, 1, 1]), port_number: 1 } }
+
+fn any_age() -> i128 {
+    let a: i128 = kani::any();
+    kani::assume(a >= 0 && a < WINDOW_BITS);
+    a
 }
 
+/// stand-alone record of master `pn` with `c` messages (concrete count), symbolic ages / sequence ids
+fn any_record(pn: u16, c: usize) -> (ForeignMaster, [i128; 2], [u16; 2]) {
+    let age = [any_age(), any_age()];
+    let seq: [u16; 2] = [kani::any(), kani::any()];
+    let first = plain_announce(pn, seq[0]);
+    let mut fm = ForeignMaster::new(first.header, first);
+    fm.announce_messages[0].age = dur(age[0]);
+    if c == 2 {
+        // invariant: a later message was admitted after the earlier one, i.e. with a newer sequence id (mod 2^16)
+        kani::assume(seq[1].wrapping_sub(seq[0]) < 32767);
+        let second = plain_announce(pn, seq[1]);
+        fm.announce_messages.push(ForeignAnnounceMessage { header: second.header, message: second, age: dur(age[1]) });
+    }
+    (fm, age, seq)
+}
+
+fn record_holds(r: &ForeignMaster, pn: u16, k: usize, seq: [u16; 2], age: [i128; 2]) -> bool {
+    r.foreign_master_port_identity.port_number == pn
+        && r.announce_messages.len() == k
+        && (k < 1 || (r.announce_messages[0].header.sequence_id == seq[0] && r.announce_messages[0].age == dur(age[0])))
+        && (k < 2 || (r.announce_messages[1].header.sequence_id == seq[1] && r.announce_messages[1].age == dur(age[1])))
+}
+
+/// `ArrayVec::retain` for vectors of at most two elements (the scaled capacity), element-wise by value.
+/// arrayvec is a dependency, not statime code: its documented behaviour (keep exactly the elements the predicate
+/// accepts, visited once each in order, order preserved) is trusted; its guard-based in-place implementation with a
+/// data-dependent hole index is what CBMC cannot carry on 200-octet elements.
+pub(crate) fn retain2<T, const CAP: usize, F>(v: &mut ArrayVec<T, CAP>, mut f: F)
+where
+    F: FnMut(&mut T) -> bool,
+{
+    let n = v.len();
+    assert!(n <= 2, "retain2: stub is only valid for the scaled capacity");
+    let e1 = if n == 2 { v.pop() } else { None };
+    let e0 = if n >= 1 { v.pop() } else { None };
+    if let Some(mut e) = e0 {
+        if f(&mut e) { v.push(e) }
+    }
+    if let Some(mut e) = e1 {
+        if f(&mut e) { v.push(e) }
+    }
+}
+
+/// `ArrayVec::remove` for vectors of at most two elements: panics like the real one when out of bounds
+pub(crate) fn remove2<T, const CAP: usize>(v: &mut ArrayVec<T, CAP>, index: usize) -> T {
+    let n = v.len();
+    assert!(n <= 2, "remove2: stub is only valid for the scaled capacity");
+    assert!(index < n, "ArrayVec::remove: index is out of bounds");
+    if index + 1 == n {
+        v.pop().unwrap()
+    } else {
+        let e1 = v.pop().unwrap();
+        let e0 = v.pop().unwrap();
+        v.push(e1);
+        e0
+    }
+}
+
+fn record_step_case(c: usize) {
+    let (mut r, age, seq) = any_record(7, c);
+    let step: i128 = kani::any();
+    kani::assume(step >= 0 && step < (1i128 << 68));
+    let gone = r.step_age(dur(step), ti_one_second());
+    let mut k = 0usize;
+    let mut s2 = [0u16; 2];
+    let mut a2 = [0i128; 2];
+    let mut j = 0;
+    while j < 2 {
+        if j < c && age[j] + step < WINDOW_BITS {
+            s2[k] = seq[j];
+            a2[k] = age[j] + step;
+            k += 1;
+        }
+        j += 1;
+    }
+    assert!(gone == (k == 0), "C06: record reports 'no messages left' wrongly");
+    assert!(record_holds(&r, 7, k, s2, a2), "C06: surviving messages differ from (younger than four intervals, aged by exactly the step, in order)");
+    kani::cover!(gone, "record expires");
+    kani::cover!(!gone && k < c, "one of two messages purged");
+    core::mem::forget(r);
+}
+
+// @harness c06_record_step_age
+// @props C06 C03
+// @tier quick
+// @variant lists2_rv
+// @stubbing yes
+// @timeout 1500
+// @mem 12
+// @functions ForeignMaster::step_age, ForeignMaster::purge_old_messages, ArrayVec::retain
+// @bounds stand-alone record of one master holding 1 or 2 messages (both shapes) with any ages in [0, window) and any sequence ids; one step_age(step) with any step in [0, 2^36 ns); announce interval 1 s; message capacity scaled 8 -> 2
+// @assume arrayvec::ArrayVec::retain (textually, at statime's call sites in the scratch copy: variant _rv) and ArrayVec::remove (#[kani::stub]) replaced by element-wise equivalents for at most two elements (retain2, remove2): the dependency's documented behaviour is trusted, statime's closure and call pattern are the real code
+// @note expiry, record level: a message survives iff age + step < 4 announce intervals, with its age advanced by exactly step and the order kept; the function returns true iff nothing survives. This is the contract the list-level stub (fm_step_age_stub) implements.
+#[kani::proof]
+#[kani::unwind(6)]
+#[kani::stub(arrayvec::ArrayVec::remove, crate::bmc::foreign_master::verif_fm::remove2)]
+fn c06_record_step_age() {
+    record_step_case(1);
+    record_step_case(2);
+}
+
+fn record_register_case(c: usize) {
+    let (mut r, age, seq) = any_record(7, c);
+    let nseq: u16 = kani::any();
+    let nage = any_age();
+    let m = plain_announce(7, nseq);
+    r.register_announce_message(m.header, m, ti_one_second(), dur(nage));
+    if c == 1 {
+        assert!(record_holds(&r, 7, 2, [seq[0], nseq], [age[0], nage]), "C06: Announce not appended to its master's record with the given age");
+    } else {
+        assert!(record_holds(&r, 7, 2, [seq[1], nseq], [age[1], nage]), "C06: a full record must evict its oldest message for the new one");
+    }
+    kani::cover!(true, "registered");
+    core::mem::forget(r);
+}
+
+// @harness c06_record_register
+// @props C06 C03
+// @tier quick
+// @variant lists2_rv
+// @stubbing yes
+// @timeout 1500
+// @mem 12
+// @functions ForeignMaster::register_announce_message, ForeignMaster::purge_old_messages, ArrayVec::try_push, ArrayVec::remove, ArrayVec::push
+// @bounds stand-alone record holding 1 or 2 messages (both shapes, ages in [0, window)); one register_announce_message with any sequence id and any age in [0, window); message capacity scaled 8 -> 2
+// @assume arrayvec::ArrayVec::retain (textually, at statime's call sites in the scratch copy: variant _rv) and ArrayVec::remove (#[kani::stub]) replaced by element-wise equivalents for at most two elements (retain2, remove2): the dependency's documented behaviour is trusted, statime's closure and call pattern are the real code
+// @note a message inside the window is never purged by a registration; the new message is appended with the given age, evicting the oldest when the record is full. Contract of the list-level stub fm_register_stub.
+#[kani::proof]
+#[kani::unwind(6)]
+#[kani::stub(arrayvec::ArrayVec::remove, crate::bmc::foreign_master::verif_fm::remove2)]
+fn c06_record_register() {
+    record_register_case(1);
+    record_register_case(2);
+}
+
+// ---- list level ---------------------------------------------------------------------------------
+/// what the stubbed record-level step_age returns for master 1 / 2 (symbolic, fixed per harness run)
+pub(crate) static mut FM_GONE: [bool; 2] = [false; 2];
+pub(crate) static mut FM_STEP_CALLS: [u32; 2] = [0; 2];
+pub(crate) static mut FM_STEP_ARG_OK: bool = true;
+pub(crate) static mut FM_STEP_ARG: Option<Duration> = None;
+
+/// record-level step_age as decided by c06_record_step_age: ages advance, old messages go, "true iff nothing left".
+/// Here: leaves the record as it is (the list walk does not look inside) and returns the symbolic verdict.
+pub(crate) fn fm_step_age_stub(r: &mut ForeignMaster, step: Duration, interval: TimeInterval) -> bool {
+    let i = (r.foreign_master_port_identity.port_number - 1) as usize;
+    unsafe {
+        FM_STEP_CALLS[i] += 1;
+        if FM_STEP_ARG != Some(step) || interval != ti_one_second() { FM_STEP_ARG_OK = false; }
+        FM_GONE[i]
+    }
+}
+
+pub(crate) static mut FM_REG_CALLS: u32 = 0;
+pub(crate) static mut FM_REG: Option<(u16, u16, Duration, TimeInterval)> = None;
+
+/// record-level registration as decided by c06_record_register: here only recorded (master, sequence id, age)
+pub(crate) fn fm_register_stub(r: &mut ForeignMaster, header: Header, m: AnnounceMessage, interval: TimeInterval, age: Duration) {
+    unsafe {
+        FM_REG_CALLS += 1;
+        FM_REG = Some((r.foreign_master_port_identity.port_number, header.sequence_id, age, interval));
+    }
+    let _ = m;
+}
+
+pub(crate) struct ListModel {
+    pub(crate) n: usize,
+    pub(crate) c: [usize; 2],
+    pub(crate) age: [[i128; 2]; 2],
+    pub(crate) seq: [[u16; 2]; 2],
+}
+
+/// every list shape within the scaled capacities: (records, messages per record)
+pub(crate) const SHAPES: [(usize, [usize; 2]); 7] = [(0, [0, 0]), (1, [1, 0]), (1, [2, 0]), (2, [1, 1]), (2, [1, 2]), (2, [2, 1]), (2, [2, 2])];
+
 /// list of the given (concrete) shape - `n` records holding `cs[i]` messages - with symbolic ages and sequence ids
-fn any_list(own: PortIdentity, n: usize, cs: [usize; 2]) -> (ForeignMasterList, ListModel) {
+pub(crate) fn any_list(own: PortIdentity, n: usize, cs: [usize; 2]) -> (ForeignMasterList, ListModel) {
     let mut l = ForeignMasterList::new(ti_one_second(), own);
     let mut m = ListModel { n, c: [0; 2], age: [[0; 2]; 2], seq: [[0; 2]; 2] };
     let mut i = 0;
     while i < 2 {
         if i < n {
-            let c: usize = cs[i];
-            m.c[i] = c;
-            let a0: i128 = kani::any();
-            let a1: i128 = kani::any();
-            kani::assume(a0 >= 0 && a0 < WINDOW_BITS && a1 >= 0 && a1 < WINDOW_BITS);
-            m.age[i] = [a0, a1];
-            m.seq[i] = [kani::any(), kani::any()];
-            let first = plain_announce(1 + i as u16, m.seq[i][0]);
-            let mut fm = ForeignMaster::new(first.header, first);
-            fm.announce_messages[0].age = dur(a0);
-            if c == 2 {
-                let second = plain_announce(1 + i as u16, m.seq[i][1]);
-                fm.announce_messages.push(ForeignAnnounceMessage { header: second.header, message: second, age: dur(a1) });
-            }
+            let (fm, age, seq) = any_record(1 + i as u16, cs[i]);
+            m.c[i] = cs[i];
+            m.age[i] = age;
+            m.seq[i] = seq;
             l.foreign_masters.push(fm);
         }
         i += 1;
@@ -231,149 +406,60 @@ fn any_list(own: PortIdentity, n: usize, cs: [usize; 2]) -> (ForeignMasterList, 
     (l, m)
 }
 
-/// record `i` of the list holds exactly the given (sequence id, age) pairs, in order, and belongs to port `pn`
-fn record_is(l: &ForeignMasterList, i: usize, pn: u16, k: usize, seq: [u16; 2], age: [i128; 2]) -> bool {
-    let r = &l.foreign_masters[i];
-    r.foreign_master_port_identity.port_number == pn
-        && r.announce_messages.len() == k
-        && (k < 1 || (r.announce_messages[0].header.sequence_id == seq[0] && r.announce_messages[0].age == dur(age[0])))
-        && (k < 2 || (r.announce_messages[1].header.sequence_id == seq[1] && r.announce_messages[1].age == dur(age[1])))
+pub(crate) fn record_is(l: &ForeignMasterList, i: usize, pn: u16, k: usize, seq: [u16; 2], age: [i128; 2]) -> bool {
+    record_holds(&l.foreign_masters[i], pn, k, seq, age)
 }
-
-fn own_identity() -> PortIdentity { PortIdentity { clock_identity: ClockIdentity([1, 1, 1, 1, 1, 1, 1, 1]), port_number: 1 } }
-
-// @harness c06_list_step_age_n01
-// @props C06 C03
-// @tier quick
-// @variant lists2
-// @timeout 1500
-// @mem 12
-// @functions ForeignMasterList::step_age, ForeignMaster::step_age, ForeignMaster::purge_old_messages, ArrayVec::retain, ArrayVec::remove
-// @bounds one step_age(step) with any step in [0, 2^36 ns) from an arbitrary list state satisfying the invariant (list shape none, 1x[1], 1x[2]: records x messages per record; any ages in [0, window), any sequence ids); announce interval 1 s; capacities scaled 8 -> 2; stored Announce payloads concrete
-// @note expiry half of C06: a message survives iff age + step < 4 announce intervals, with its age advanced by exactly step; a record survives iff one of its messages does; survivors keep their order; the invariant is re-established. By induction over BMCA runs a master that falls silent is gone at the first run at or after four intervals; one that keeps announcing is never dropped.
-#[kani::proof]
-#[kani::unwind(9)]
-fn c06_list_step_age_n01() {
-    step_age_case(0, [0, 0]);
-    step_age_case(1, [1, 0]);
-    step_age_case(1, [2, 0]);
-}
-
-// @harness c06_list_step_age_n2_11
-// @props C06 C03
-// @tier quick
-// @variant lists2
-// @timeout 1500
-// @mem 12
-// @functions ForeignMasterList::step_age, ForeignMaster::step_age, ForeignMaster::purge_old_messages, ArrayVec::retain, ArrayVec::remove
-// @bounds one step_age(step) with any step in [0, 2^36 ns) from an arbitrary list state satisfying the invariant (list shape 2x[1,1]: records x messages per record; any ages in [0, window), any sequence ids); announce interval 1 s; capacities scaled 8 -> 2; stored Announce payloads concrete
-// @note expiry half of C06: a message survives iff age + step < 4 announce intervals, with its age advanced by exactly step; a record survives iff one of its messages does; survivors keep their order; the invariant is re-established. By induction over BMCA runs a master that falls silent is gone at the first run at or after four intervals; one that keeps announcing is never dropped.
-#[kani::proof]
-#[kani::unwind(9)]
-fn c06_list_step_age_n2_11() {
-    step_age_case(2, [1, 1]);
-}
-
-// @harness c06_list_step_age_n2_12
-// @props C06 C03
-// @tier quick
-// @variant lists2
-// @timeout 1500
-// @mem 12
-// @functions ForeignMasterList::step_age, ForeignMaster::step_age, ForeignMaster::purge_old_messages, ArrayVec::retain, ArrayVec::remove
-// @bounds one step_age(step) with any step in [0, 2^36 ns) from an arbitrary list state satisfying the invariant (list shape 2x[1,2]: records x messages per record; any ages in [0, window), any sequence ids); announce interval 1 s; capacities scaled 8 -> 2; stored Announce payloads concrete
-// @note expiry half of C06: a message survives iff age + step < 4 announce intervals, with its age advanced by exactly step; a record survives iff one of its messages does; survivors keep their order; the invariant is re-established. By induction over BMCA runs a master that falls silent is gone at the first run at or after four intervals; one that keeps announcing is never dropped.
-#[kani::proof]
-#[kani::unwind(9)]
-fn c06_list_step_age_n2_12() {
-    step_age_case(2, [1, 2]);
-}
-
-// @harness c06_list_step_age_n2_21
-// @props C06 C03
-// @tier quick
-// @variant lists2
-// @timeout 1500
-// @mem 12
-// @functions ForeignMasterList::step_age, ForeignMaster::step_age, ForeignMaster::purge_old_messages, ArrayVec::retain, ArrayVec::remove
-// @bounds one step_age(step) with any step in [0, 2^36 ns) from an arbitrary list state satisfying the invariant (list shape 2x[2,1]: records x messages per record; any ages in [0, window), any sequence ids); announce interval 1 s; capacities scaled 8 -> 2; stored Announce payloads concrete
-// @note expiry half of C06: a message survives iff age + step < 4 announce intervals, with its age advanced by exactly step; a record survives iff one of its messages does; survivors keep their order; the invariant is re-established. By induction over BMCA runs a master that falls silent is gone at the first run at or after four intervals; one that keeps announcing is never dropped.
-#[kani::proof]
-#[kani::unwind(9)]
-fn c06_list_step_age_n2_21() {
-    step_age_case(2, [2, 1]);
-}
-
-// @harness c06_list_step_age_n2_22
-// @props C06 C03
-// @tier quick
-// @variant lists2
-// @timeout 1500
-// @mem 12
-// @functions ForeignMasterList::step_age, ForeignMaster::step_age, ForeignMaster::purge_old_messages, ArrayVec::retain, ArrayVec::remove
-// @bounds one step_age(step) with any step in [0, 2^36 ns) from an arbitrary list state satisfying the invariant (list shape 2x[2,2]: records x messages per record; any ages in [0, window), any sequence ids); announce interval 1 s; capacities scaled 8 -> 2; stored Announce payloads concrete
-// @note expiry half of C06: a message survives iff age + step < 4 announce intervals, with its age advanced by exactly step; a record survives iff one of its messages does; survivors keep their order; the invariant is re-established. By induction over BMCA runs a master that falls silent is gone at the first run at or after four intervals; one that keeps announcing is never dropped.
-#[kani::proof]
-#[kani::unwind(9)]
-fn c06_list_step_age_n2_22() {
-    step_age_case(2, [2, 2]);
-}
-
-
-/// every list shape within the scaled capacities: (records, messages per record)
-const SHAPES: [(usize, [usize; 2]); 7] = [(0, [0, 0]), (1, [1, 0]), (1, [2, 0]), (2, [1, 1]), (2, [1, 2]), (2, [2, 1]), (2, [2, 2])];
 
 fn step_age_case(n: usize, cs: [usize; 2]) {
     let (mut l, m) = any_list(own_identity(), n, cs);
     let step: i128 = kani::any();
     kani::assume(step >= 0 && step < (1i128 << 68));
+    let gone: [bool; 2] = [kani::any(), kani::any()];
+    unsafe {
+        FM_GONE = gone;
+        FM_STEP_CALLS = [0; 2];
+        FM_STEP_ARG_OK = true;
+        FM_STEP_ARG = Some(dur(step));
+    }
     l.step_age(dur(step));
-    // reference
     let mut out = 0usize;
     let mut i = 0;
     while i < 2 {
         if i < m.n {
-            let mut k = 0usize;
-            let mut seq = [0u16; 2];
-            let mut age = [0i128; 2];
-            let mut j = 0;
-            while j < 2 {
-                if j < m.c[i] && m.age[i][j] + step < WINDOW_BITS {
-                    seq[k] = m.seq[i][j];
-                    age[k] = m.age[i][j] + step;
-                    k += 1;
-                }
-                j += 1;
-            }
-            if k > 0 {
+            assert!(unsafe { FM_STEP_CALLS[i] } == 1, "C06: every record must be aged exactly once per step");
+            if !gone[i] {
                 assert!(out < l.foreign_masters.len(), "C06: a master with a message inside the window was dropped");
-                assert!(record_is(&l, out, 1 + i as u16, k, seq, age), "C06: surviving record differs from (messages younger than four intervals, aged by the step, in order)");
+                assert!(record_is(&l, out, 1 + i as u16, m.c[i], m.seq[i], m.age[i]), "C06: the walk disturbed a surviving record / changed the order of the records");
                 out += 1;
             }
         }
         i += 1;
     }
+    assert!(unsafe { FM_STEP_ARG_OK }, "C06: records aged by something else than the step / the port's announce interval");
     assert!(l.foreign_masters.len() == out, "C06: a master whose messages are all older than four announce intervals was kept");
     kani::cover!(out < m.n, "a record expires");
     kani::cover!(m.n > 0 && out == m.n, "every record survives");
     core::mem::forget(l);
 }
 
-// @harness c06_list_take_qualified
+// @harness c06_list_step_age
 // @props C06 C03
 // @tier quick
 // @variant lists2
+// @stubbing yes
 // @timeout 1500
-// @mem 12
-// @functions ForeignMasterList::take_qualified_announce_messages, ArrayVec::remove, ArrayVec::push, ArrayVec::into_iter
-// @bounds one take_qualified_announce_messages() from an arbitrary list state satisfying the invariant (as c06_list_step_age)
-// @note qualification half of C06: a master yields a message (its most recent one) iff its record holds at least two messages - all of which are younger than four announce intervals by the invariant; a record with a single message yields nothing and is left untouched; nothing else changes
+// @mem 20
+// @functions ForeignMasterList::step_age, ArrayVec::remove
+// @bounds one step_age(step) with any step in [0, 2^36 ns) from an arbitrary list state satisfying the invariant (each of the 7 shapes of 0..=2 records with 1..=2 messages, any ages in [0, window), any sequence ids); announce interval 1 s; capacities scaled 8 -> 2; stored Announce payloads concrete
+// @assume ForeignMaster::step_age replaced by fm_step_age_stub (returns a symbolic 'nothing left' verdict per record, checks its arguments); the real function is decided by c06_record_step_age
+// @note expiry half of C06, list walk: every record is aged exactly once with the given step and the port's announce interval; a record is removed iff its record-level ageing reports it empty; survivors keep their order and content. With c06_record_step_age and induction over BMCA runs: a master that falls silent is gone at the first run at or after four intervals, one with a message younger than four intervals is not dropped.
 #[kani::proof]
 #[kani::unwind(9)]
-fn c06_list_take_qualified() {
+#[kani::stub(crate::bmc::foreign_master::ForeignMaster::step_age, crate::bmc::foreign_master::verif_fm::fm_step_age_stub)]
+fn c06_list_step_age() {
     let mut k = 0;
     while k < 7 {
-        take_case(SHAPES[k].0, SHAPES[k].1);
+        step_age_case(SHAPES[k].0, SHAPES[k].1);
         k += 1;
     }
 }
@@ -409,83 +495,24 @@ fn take_case(n: usize, cs: [usize; 2]) {
     core::mem::forget(l);
 }
 
-// @harness c06_list_register_n01
-// @props C06 C07:thorough C03
+// @harness c06_list_take_qualified
+// @props C06 C03
 // @tier quick
 // @variant lists2
-// @timeout 1800
-// @mem 16
-// @functions ForeignMasterList::register_announce_message, ForeignMasterList::is_announce_message_qualified, ForeignMaster::register_announce_message, ForeignMaster::purge_old_messages, ForeignMaster::new, ArrayVec::try_push, ArrayVec::remove
-// @bounds one register_announce_message(header, announce, age) from an arbitrary list state satisfying the invariant; the Announce comes from record 0, record 1, a third master or the own clock (symbolic choice), with any sequence id, any stepsRemoved and any age in [0, window); capacities scaled 8 -> 2
-// @note admission half of C06: own clock identity, stepsRemoved >= 255 and sequence ids not newer (modulo 2^16, window 2^15 - 1) than the record's latest leave the list unchanged; an admitted Announce of a known master is appended with the given age (oldest one evicted when the record is full) - including across 65535 -> 0; a new master gets a one-message record with age zero if there is room and is ignored otherwise (capacity: only the necessary-condition half)
+// @timeout 1500
+// @mem 12
+// @functions ForeignMasterList::take_qualified_announce_messages, ArrayVec::remove, ArrayVec::push, ArrayVec::into_iter
+// @bounds one take_qualified_announce_messages() from an arbitrary list state satisfying the invariant (each of the 7 shapes, as c06_list_step_age); no stubs
+// @note qualification half of C06: a master yields a message (its most recent one) iff its record holds at least two messages - all of which are younger than four announce intervals by the invariant; a record with a single message yields nothing and is left untouched; nothing else changes
 #[kani::proof]
 #[kani::unwind(9)]
-fn c06_list_register_n01() {
-    register_case(0, [0, 0]);
-    register_case(1, [1, 0]);
-    register_case(1, [2, 0]);
+fn c06_list_take_qualified() {
+    let mut k = 0;
+    while k < 7 {
+        take_case(SHAPES[k].0, SHAPES[k].1);
+        k += 1;
+    }
 }
-
-// @harness c06_list_register_n2_11
-// @props C06 C07:thorough C03
-// @tier quick
-// @variant lists2
-// @timeout 1800
-// @mem 16
-// @functions ForeignMasterList::register_announce_message, ForeignMasterList::is_announce_message_qualified, ForeignMaster::register_announce_message, ForeignMaster::purge_old_messages, ForeignMaster::new, ArrayVec::try_push, ArrayVec::remove
-// @bounds one register_announce_message(header, announce, age) from an arbitrary list state satisfying the invariant; the Announce comes from record 0, record 1, a third master or the own clock (symbolic choice), with any sequence id, any stepsRemoved and any age in [0, window); capacities scaled 8 -> 2
-// @note admission half of C06: own clock identity, stepsRemoved >= 255 and sequence ids not newer (modulo 2^16, window 2^15 - 1) than the record's latest leave the list unchanged; an admitted Announce of a known master is appended with the given age (oldest one evicted when the record is full) - including across 65535 -> 0; a new master gets a one-message record with age zero if there is room and is ignored otherwise (capacity: only the necessary-condition half)
-#[kani::proof]
-#[kani::unwind(9)]
-fn c06_list_register_n2_11() {
-    register_case(2, [1, 1]);
-}
-
-// @harness c06_list_register_n2_12
-// @props C06 C07:thorough C03
-// @tier quick
-// @variant lists2
-// @timeout 1800
-// @mem 16
-// @functions ForeignMasterList::register_announce_message, ForeignMasterList::is_announce_message_qualified, ForeignMaster::register_announce_message, ForeignMaster::purge_old_messages, ForeignMaster::new, ArrayVec::try_push, ArrayVec::remove
-// @bounds one register_announce_message(header, announce, age) from an arbitrary list state satisfying the invariant; the Announce comes from record 0, record 1, a third master or the own clock (symbolic choice), with any sequence id, any stepsRemoved and any age in [0, window); capacities scaled 8 -> 2
-// @note admission half of C06: own clock identity, stepsRemoved >= 255 and sequence ids not newer (modulo 2^16, window 2^15 - 1) than the record's latest leave the list unchanged; an admitted Announce of a known master is appended with the given age (oldest one evicted when the record is full) - including across 65535 -> 0; a new master gets a one-message record with age zero if there is room and is ignored otherwise (capacity: only the necessary-condition half)
-#[kani::proof]
-#[kani::unwind(9)]
-fn c06_list_register_n2_12() {
-    register_case(2, [1, 2]);
-}
-
-// @harness c06_list_register_n2_21
-// @props C06 C07:thorough C03
-// @tier quick
-// @variant lists2
-// @timeout 1800
-// @mem 16
-// @functions ForeignMasterList::register_announce_message, ForeignMasterList::is_announce_message_qualified, ForeignMaster::register_announce_message, ForeignMaster::purge_old_messages, ForeignMaster::new, ArrayVec::try_push, ArrayVec::remove
-// @bounds one register_announce_message(header, announce, age) from an arbitrary list state satisfying the invariant; the Announce comes from record 0, record 1, a third master or the own clock (symbolic choice), with any sequence id, any stepsRemoved and any age in [0, window); capacities scaled 8 -> 2
-// @note admission half of C06: own clock identity, stepsRemoved >= 255 and sequence ids not newer (modulo 2^16, window 2^15 - 1) than the record's latest leave the list unchanged; an admitted Announce of a known master is appended with the given age (oldest one evicted when the record is full) - including across 65535 -> 0; a new master gets a one-message record with age zero if there is room and is ignored otherwise (capacity: only the necessary-condition half)
-#[kani::proof]
-#[kani::unwind(9)]
-fn c06_list_register_n2_21() {
-    register_case(2, [2, 1]);
-}
-
-// @harness c06_list_register_n2_22
-// @props C06 C07:thorough C03
-// @tier quick
-// @variant lists2
-// @timeout 1800
-// @mem 16
-// @functions ForeignMasterList::register_announce_message, ForeignMasterList::is_announce_message_qualified, ForeignMaster::register_announce_message, ForeignMaster::purge_old_messages, ForeignMaster::new, ArrayVec::try_push, ArrayVec::remove
-// @bounds one register_announce_message(header, announce, age) from an arbitrary list state satisfying the invariant; the Announce comes from record 0, record 1, a third master or the own clock (symbolic choice), with any sequence id, any stepsRemoved and any age in [0, window); capacities scaled 8 -> 2
-// @note admission half of C06: own clock identity, stepsRemoved >= 255 and sequence ids not newer (modulo 2^16, window 2^15 - 1) than the record's latest leave the list unchanged; an admitted Announce of a known master is appended with the given age (oldest one evicted when the record is full) - including across 65535 -> 0; a new master gets a one-message record with age zero if there is room and is ignored otherwise (capacity: only the necessary-condition half)
-#[kani::proof]
-#[kani::unwind(9)]
-fn c06_list_register_n2_22() {
-    register_case(2, [2, 2]);
-}
-
 
 fn register_case(n: usize, cs: [usize; 2]) {
     let own = own_identity();
@@ -498,35 +525,60 @@ fn register_case(n: usize, cs: [usize; 2]) {
         a.header.source_port_identity = PortIdentity { clock_identity: own.clock_identity, port_number: kani::any() };
     }
     a.steps_removed = kani::any();
-    let age: i128 = kani::any();
-    kani::assume(age >= 0 && age < WINDOW_BITS);
+    let age = any_age();
+    unsafe {
+        FM_REG_CALLS = 0;
+        FM_REG = None;
+    }
     l.register_announce_message(&a.header, &a, dur(age));
     let known = (who as usize) < m.n;
     let last = if known { m.seq[who as usize][m.c[who as usize] - 1] } else { 0 };
     let admitted = who != 3 && a.steps_removed < 255 && (!known || seq.wrapping_sub(last) < 32767);
+    // existing records are never touched by the list level itself
     let mut i = 0;
     while i < 2 {
         if i < m.n {
-            if admitted && i == who as usize {
-                if m.c[i] == 1 {
-                    assert!(record_is(&l, i, 1 + i as u16, 2, [m.seq[i][0], seq], [m.age[i][0], age]), "C06: admitted Announce not appended to its master's record with the given age");
-                } else {
-                    assert!(record_is(&l, i, 1 + i as u16, 2, [m.seq[i][1], seq], [m.age[i][1], age]), "C06: full record must evict its oldest message for the new one");
-                }
-            } else {
-                assert!(record_is(&l, i, 1 + i as u16, m.c[i], m.seq[i], m.age[i]), "C06: registration changed a record it does not concern (or a rejected Announce was stored)");
-            }
+            assert!(record_is(&l, i, 1 + i as u16, m.c[i], m.seq[i], m.age[i]), "C06: registration changed a record at list level");
         }
         i += 1;
     }
-    if admitted && !known && m.n < 2 {
-        assert!(l.foreign_masters.len() == m.n + 1 && record_is(&l, m.n, 1 + who as u16, 1, [seq, 0], [0, 0]), "C06: new master must start with a single message of age zero");
+    if admitted && known {
+        assert!(unsafe { FM_REG_CALLS } == 1 && unsafe { FM_REG } == Some((1 + who as u16, seq, dur(age), ti_one_second())),
+            "C06: an admitted Announce of a known master must be handed to exactly that master's record with its sequence id, age and the port's announce interval");
+        assert!(l.foreign_masters.len() == m.n);
     } else {
-        assert!(l.foreign_masters.len() == m.n, "C06: record count changed");
+        assert!(unsafe { FM_REG_CALLS } == 0, "C06: a rejected Announce (own clock, stepsRemoved >= 255, stale sequence id) reached a record");
+        if admitted && m.n < 2 {
+            assert!(l.foreign_masters.len() == m.n + 1 && record_is(&l, m.n, 1 + who as u16, 1, [seq, 0], [0, 0]), "C06: a new master must start with a single message of age zero");
+        } else {
+            assert!(l.foreign_masters.len() == m.n, "C06: record count changed");
+        }
     }
     kani::cover!(admitted && known && last > 65000 && seq < 100, "known master admitted across the sequence wrap");
     kani::cover!(!admitted && known && who != 3 && a.steps_removed < 255, "stale sequence id rejected");
     kani::cover!(admitted && !known, "admitted Announce of an unknown master");
     kani::cover!(who == 3, "own clock identity rejected");
     core::mem::forget(l);
+}
+
+// @harness c06_list_register
+// @props C06 C07:thorough C03
+// @tier quick
+// @variant lists2
+// @stubbing yes
+// @timeout 1800
+// @mem 16
+// @functions ForeignMasterList::register_announce_message, ForeignMasterList::is_announce_message_qualified, ForeignMasterList::get_foreign_master_mut, ForeignMaster::new, ArrayVec::push
+// @bounds one register_announce_message(header, announce, age) from an arbitrary list state satisfying the invariant (each of the 7 shapes); the Announce comes from record 0, record 1, a third master or the own clock (symbolic choice), with any sequence id, any stepsRemoved and any age in [0, window); capacities scaled 8 -> 2
+// @assume ForeignMaster::register_announce_message replaced by fm_register_stub (records master, sequence id, age, interval); the real function is decided by c06_record_register
+// @note admission half of C06: own clock identity, stepsRemoved >= 255 and sequence ids not newer (modulo 2^16, window 2^15 - 1) than the record's latest never reach a record and never create one; an admitted Announce of a known master is handed to exactly that record with the given age - including across 65535 -> 0; a new master gets a one-message record with age zero if there is room and is ignored otherwise (beyond capacity: only the necessary-condition half)
+#[kani::proof]
+#[kani::unwind(9)]
+#[kani::stub(crate::bmc::foreign_master::ForeignMaster::register_announce_message, crate::bmc::foreign_master::verif_fm::fm_register_stub)]
+fn c06_list_register() {
+    let mut k = 0;
+    while k < 7 {
+        register_case(SHAPES[k].0, SHAPES[k].1);
+        k += 1;
+    }
 }
